@@ -141,6 +141,34 @@ def check(case):
             fail("resolver-rejects-wellformed", f"resolver rejected the well-formed condition expression {text!r}")
     info["resolver"] = res.ok
 
+    # (3b) the resolver with resolve_packages=True: the expressions a package resolver hands back are strings that go
+    # through the condition parser as well - a malformed one must surface as SyntaxError, not inside the returned tree
+    table = case.get("packages")
+    if table is not None and res.ok:
+        from ahbicht.expressions.package_expansion import DictBasedPackageResolver
+
+        resolver = DictBasedPackageResolver({k: v for k, v in table.items() if v is not None})
+        resolver.edifact_format, resolver.edifact_format_version = sut.FMT, sut.VER
+        sut.configure([resolver])
+        used = [key for key in dict.fromkeys(_PACKAGE_USE.findall(text))]
+        malformed = [key for key in used if table.get(key) is not None and not ref.accepts_condition(table[key])]
+        missing = [key for key in used if table.get(key) is None]
+        expanded = sut.call(resolve, text, True, case.get("replace_time", True))
+        what = f"resolver(resolve_packages=True) for {text!r} with packages {({k: table.get(k) for k in used})!r}"
+        if expanded.ok:
+            left = _unresolved_tokens(expanded.value)
+            if left:
+                fail("resolver-unresolved", f"{what} returned a tree that contains {left!r}"[:700])
+            if malformed:
+                fail("resolver-accepts-malformed", f"{what} returned a tree although {malformed} are malformed")
+        elif expanded.is_a(SyntaxError):
+            if not malformed:
+                fail("resolver-rejects-wellformed", f"{what} raised {expanded!r}"[:700])
+        elif not (expanded.is_a(NotImplementedError) and missing):
+            fail("resolver-foreign", f"{what} raised {expanded!r} (only SyntaxError, or NotImplementedError for an unknown package)"[:700])
+        info["packages"] = "malformed" if malformed else ("missing" if missing else ("expanded" if used else "none-used"))
+        sut.setup_hardcoded(sut.make_cer())
+
     # (4) validity check: reports what the resolver rejects as (False, message), never raises for it
     if not res.ok:
         verdict = sut.call(is_valid_expression, text, _CER.set)
@@ -152,9 +180,15 @@ def check(case):
     return info
 
 
+_PACKAGE_USE = re.compile(r"\[[ \t\f\r\n]*([0-9]+P)")
+PACKAGE_BODIES = ["[1]", "[2] U [3]", "([4] O [5])[901]", "[UB1]", "[6]", "[2] U", "[", "[1]]", "[2] U U [3]", "1", "[7] Q [8]", "[8P", None]
+
+
 def classify(case, info):
     text = case["s"]
     labels = ["class=" + case["class"], "kind=" + case["kind"]]
+    if info.get("packages"):
+        labels.append("packages=" + info["packages"])
     labels.append("cond-accepted" if info["cond"] else "cond-rejected")
     labels.append("ahb-accepted" if info["ahb"] else "ahb-rejected")
     labels.append("resolver-accepted" if info["resolver"] else "resolver-rejected")
@@ -262,7 +296,12 @@ def strategy(tier):
         replace_time = draw(st.booleans())
         if pick < 4:
             kind, text = draw(wellformed(max_atoms))
-            return {"class": "wellformed", "kind": kind, "s": text, "replace_time": replace_time}
+            case = {"class": "wellformed", "kind": kind, "s": text, "replace_time": replace_time}
+            used = list(dict.fromkeys(_PACKAGE_USE.findall(text)))
+            if used and draw(st.booleans()):
+                bodies = PACKAGE_BODIES[:5] if draw(st.booleans()) else PACKAGE_BODIES
+                case["packages"] = {key: draw(st.sampled_from(bodies)) for key in used}
+            return case
         if pick < 8:
             kind, text = draw(wellformed(max(2, max_atoms // 2)))
             how = draw(st.sampled_from(range(6)))
